@@ -38,6 +38,7 @@ class Contract:
         self.pure = opts.get("pure", False)
         self.cases = opts.get("cases")
         self.props = opts.get("props", [])
+        self.inline_calls = opts.get("inline_calls", [])
         self.assumed = assumed or opts.get("assumed", False)
         self.funcs = funcs
         self.lineno = lineno
@@ -122,6 +123,14 @@ class Registry:
 
         self.spec_natives["is_ascii"] = lambda it, a, k: VBool(_uf("is_ascii", STR, BOOL)((a[0].val if isinstance(a[0], VOpt) else a[0]).t))
         self.spec_natives["effect_names"] = lambda it, a, k: VList(items=[VStr(z3.StringVal(e[0])) for e in it.path.effects])
+        def _effect_arg(it, a, k):
+            i, j = vals.concrete_int(a[0]), vals.concrete_int(a[1])
+            effs = it.path.effects
+            if i is None or j is None or i >= len(effs) or j >= len(effs[i]):
+                return NONE
+            return effs[i][j]
+
+        self.spec_natives["effect_arg"] = _effect_arg
         self.spec_natives["implies"] = lambda it, a, k: VBool(z3.Implies(it.truthy(a[0]), it.truthy(a[1])))
         def _struct_resolver(qualname):
             ci = self.repo.lookup_class(qualname)
@@ -195,7 +204,14 @@ class Registry:
                 a = it.deref(a)
                 if isinstance(a, VOpt) and not isinstance(like, VOpt):
                     a = a.val
-                a = vals.coerce(a, like)
+                if isinstance(a, VNone) and not isinstance(like, (VOpt, VNone)):
+                    # partial spec terms under a false guard (e.g. effect_arg out of range): any value
+                    a = vals.dummy_like(like)
+                try:
+                    a = vals.coerce(a, like)
+                except Unsupported:
+                    # ill-typed application: only arises for spec terms under a false guard
+                    a = vals.dummy_like(like)
                 terms += a.leaves()
             sorts = [t.sort() for t in terms]
 
@@ -256,6 +272,8 @@ class Registry:
                 from .ip_expr import Env
 
                 return it.ev(sm.consts[name], Env(sm, {}))
+        if name in ("posixpath", "os", "urllib"):
+            return VModule(name)
         if name in self.spec_natives:
             fn = self.spec_natives[name]
             if name in self.ghosts_names():
